@@ -24,7 +24,8 @@ def showRead (r : Except ParseErr Header) : String :=
 
 `C10 run <hist> <hdr> <body> S=.. J=<i:j.i:j|-> from=<i> to=<i.i> orc=<i:j.i:j|-> f=<utf8 rtls tro quar dts> auth=<0|1|2> late=<0|1>`
 
-* hist: steps joined by "."; `r` = restart; `a<P|A><letters>` = attempt against a partial /
+* hist: steps joined by "."; `r` = restart (as first step: crash between `Body` and `Commit`);
+  `R` (first step only) = restart after a `Commit` that dispatched nothing; `a<P|A><letters>` = attempt against a partial /
   atomic target, one letter per ORIGINAL recipient position: o accepted+delivered, t accepted,
   temporary failure at the body stage, q temporary / p permanent rejection at RCPT;
 * hdr: "-" or comma-separated `r:<hex raw>` / `g:<hex key>:<hex value>:<hex raw>`;
@@ -130,7 +131,12 @@ def handleRun (hist hdr body : String) (rest : List String) : Option String := d
   let auth ← (← kv "auth" sAuth).toNat?
   let h ← parseHdr hdr
   let b ← parseBody body
-  let steps ← (hist.splitOn ".").mapM (parseStep to)
+  -- `R` (first step only): restart after `Commit` was answered by a queue that was already stopping
+  -- (nothing dispatched, the message is in the spool only) - for the spool the same as `r`
+  let hsteps := match hist.splitOn "." with
+    | "R" :: rest => "r" :: rest
+    | l => l
+  let steps ← hsteps.mapM (parseStep to)
   let conn : Option Conn := if auth == 0 then none else if auth == 1 then some ⟨0, 0⟩ else some ⟨1000001, 1000002⟩
   let mm : MsgMeta := ⟨1000000, sender, fb 4, fb 3, orc, fb 0, fb 1, conn, fb 2⟩
   let a : Accepted := { hdr := h, body := b, qmeta := { msgMeta := mm, sender := sender, to := to } }
